@@ -77,15 +77,6 @@ func (h *smHarness) callback(kind, act int, ops []uint8) func(*T) {
 var alphaAction = []uint8{opReturn, opDrawBool, opSkip, opFatalA, opErrorf, opPanicStr}
 var alphaInvariant = []uint8{opReturn, opFatalA, opErrorf}
 
-func symOps(name string, k int, alphabet []uint8) []uint8 {
-	var ops []uint8
-	for i := 0; i < k; i++ {
-		op := nondetU8(name + ".op" + itoa(i))
-		assume(inAlphabet(op, alphabet))
-		ops = append(ops, op)
-	}
-	return ops
-}
 
 func H_C08_repeat() {
 	h := &smHarness{}
